@@ -77,6 +77,8 @@ impl Subst {
          Expr::And(a, x) => Expr::And(b(self, a), b(self, x)),
          Expr::Or(a, x) => Expr::Or(b(self, a), b(self, x)),
          Expr::Not(a) => Expr::Not(b(self, a)),
+         // the block-local variable shadows a variable of the same spelling: both are renamed alike
+         Expr::LetBlock(x, init, body) => Expr::LetBlock(self.name(x), b(self, init), b(self, body)),
       }
    }
    fn pat(&mut self, p: &Pat) -> Pat {
@@ -267,6 +269,13 @@ fn expr_vars(e: &Expr, out: &mut BTreeSet<String>) {
       | Expr::ProdFst(a)
       | Expr::Cast(a, _)
       | Expr::Not(a) => expr_vars(a, out),
+      Expr::LetBlock(x, init, body) => {
+         expr_vars(init, out);
+         let mut inner = BTreeSet::new();
+         expr_vars(body, &mut inner);
+         inner.remove(x);
+         out.extend(inner);
+      },
       Expr::SatAdd(a, b, _)
       | Expr::Min(a, b)
       | Expr::Max(a, b)
